@@ -2,6 +2,7 @@ package props
 
 import (
 	"bifrostverify/an"
+	"strings"
 
 	"golang.org/x/tools/go/ssa"
 )
@@ -89,9 +90,26 @@ func c39(c *an.Check) {
 		fns = p.AllRepoFuncs()
 	} else {
 		fns = append(p.PkgFuncs("cmd/bifrost"), p.PkgFuncs("cli")...)
+		fns = append(fns, p.PkgFuncs("cli/util")...)
 	}
 	n := c.UsesGuarded("USEGUARD", "keyfile.OpenOrWritePrivKey result used only when err==nil", an.R("keypem/keyfile", "", "OpenOrWritePrivKey"), 0, fns, nil)
 	c.Require(n >= 3, "USEGUARD", "keyfile.OpenOrWritePrivKey call sites found", oow, "", n, "call sites enumerated", "anchor drift: fewer than 3 call sites of OpenOrWritePrivKey found")
+	// sibling loading paths in the same surface that call the (nil,nil)-capable PEM parser directly must see a key, not an
+	// absent one: the value is used only where it is known non-nil (and the error nil)
+	// (key *files* are loaded by the CLI and the daemon command; other callers — e.g. an API message field — are
+	// reported as notes by the thorough tier, they are not key files)
+	var direct []*ssa.Function
+	inSurface := func(fn *ssa.Function) bool {
+		pk := an.FuncName(fn)
+		return strings.Contains(pk, "cli.") || strings.Contains(pk, "cli/util.") || strings.Contains(pk, "cmd/bifrost.") || strings.Contains(pk, "keypem/keyfile.")
+	}
+	for _, fn := range fns {
+		if an.Outermost(fn) != oow && inSurface(fn) {
+			direct = append(direct, fn)
+		}
+	}
+	nd := c.UsesGuardedNonNil("USEGUARD", "keypem.ParsePrivKeyPem result used only when non-nil", cParse, 0, direct)
+	c.Require(nd >= 1, "USEGUARD", "direct keypem.ParsePrivKeyPem call sites found in the key-loading surface", oow, "", nd, "call sites enumerated", "anchor drift: no direct caller of ParsePrivKeyPem found in cli / cmd/bifrost")
 	if c.Tier == "thorough" {
 		// cross-reference: other callers of the (nil,nil)-capable parser
 		for _, fn := range p.AllRepoFuncs() {
@@ -108,7 +126,7 @@ func c39(c *an.Check) {
 
 func init() {
 	register(&Def{ID: "C39", Run: c39,
-		Explain:     "Decides on SSA: (R2b) OpenOrWritePrivKey has no return yielding (nil key, nil error), using the computed summary that keypem.ParsePrivKeyPem may itself return (nil,nil); (R2a) failures of Stat (other than not-exist), ReadFile, ParsePrivKeyPem, key generation, PEM marshalling and WriteFile never lead to a return with a known-nil error; (R1) success needs read+parse or generate+marshal+write; (PROVENANCE) the file written is the PEM of the generated key at the requested path, the bytes parsed are those read from that path, and the key returned is the generated/parsed one; (USEGUARD) callers in cmd/bifrost and cli (thorough: whole repo) use the key only on err==nil paths.",
+		Explain:     "Decides on SSA: (R2b) OpenOrWritePrivKey has no return yielding (nil key, nil error), using the computed summary that keypem.ParsePrivKeyPem may itself return (nil,nil); (R2a) failures of Stat (other than not-exist), ReadFile, ParsePrivKeyPem, key generation, PEM marshalling and WriteFile never lead to a return with a known-nil error; (R1) success needs read+parse or generate+marshal+write; (PROVENANCE) the file written is the PEM of the generated key at the requested path, the bytes parsed are those read from that path, and the key returned is the generated/parsed one; (USEGUARD) callers in cmd/bifrost and cli (thorough: whole repo) use the key only on err==nil paths, and the CLI's direct calls of the (nil,nil)-capable PEM parser use its result only where it is known non-nil.",
 		NotCov:      "that a re-load yields the same peer identity (PEM/protobuf round-trip, C11) and OS-level file semantics.",
 		Assumptions: commonAssumptions})
 }
